@@ -34,7 +34,7 @@ Judge(e) ==
              flags == <<r.rows = e.rows, r.order = e.order,
                         e.leaves = <<>> \/ e.leaves = <<r.leaves>>,
                         r.sequences = e.sequences, FaithfulTo(r, e.out, e.lens),
-                        /\ x.dist.k = e.extra.dist.k /\ x.dist.m = e.extra.dist.m
+                        /\ e.extra.dist \in x.dist
                         /\ x.tree_default = e.extra.tree_default /\ x.tree_kmer = e.extra.tree_kmer
                         /\ x.tree_identity = e.extra.tree_identity,
                         GuardsOk(e)>>
